@@ -141,7 +141,10 @@ BadWithCross(p, rk) ==
 
 \* "with name keeping enabled no identifier is changed at all": every identifier of the name-keeping output
 \* is an identifier (or the content of a string used as property name) of the input
+\* (ECMA-262 19.1 value properties of the global object may be spelled out by constant folding, e.g.
+\*  Number(undefined) -> NaN: that is new code (C01), not a changed identifier)
+GlobalValueNames == {"NaN", "Infinity", "undefined"}
 BadKept(p) == IF ~p.innok THEN {} ELSE
-  LET I == {p.inn[i] : i \in DOMAIN p.inn} IN
+  LET I == {p.inn[i] : i \in DOMAIN p.inn} \cup GlobalValueNames IN
   {k \in DOMAIN p.keep : p.keep[k] \notin I} \cup {-i : i \in {j \in DOMAIN p.vdk : p.vdk[j][2] \notin I}}
 =============================================================================
